@@ -161,6 +161,9 @@ pub struct Gen<'t, 'd> {
     pub module_scheme: bool,
     /// a sort was generated after a take of the current pipeline
     pub resorted_after_take: bool,
+    /// 2 = the next step is a filter, 1 = the next step is the distinct idiom (set after a windowed
+    /// derive: window, then filter, then de-duplication of the whole frame)
+    pub win_chain: u8,
     cur_src_let: bool,
     after_append: bool,
     in_sub: bool,
@@ -192,6 +195,7 @@ pub const HAZARD_NAMES: &[&str] = &[
     "having", "end", "limit", "offset", "union", "key", "value", "UPPER", "current_timestamp", "current_date",
     "current_user", "assert_rows_modified", "localtimestamp", "session_user", "default", "primary", "references",
     "interval", "timestamp", "natural", "using", "window", "partition", "over", "rows", "range", "distinct", "case",
+    "a\\b", "x\\ny", "C:\\t", "tail\\",
 ];
 
 impl Names {
@@ -263,6 +267,7 @@ impl<'t, 'd> Gen<'t, 'd> {
             force_right_let: None,
             module_scheme: false,
             resorted_after_take: false,
+            win_chain: 0,
             cur_src_let: false,
             after_append: false,
             in_sub: false,
@@ -1684,19 +1689,21 @@ impl<'t, 'd> Gen<'t, 'd> {
             return None;
         }
         // the distinct idiom: every column of the frame is a key, `take 1` inside
+        let all_refs = self.cols_of(frame, &|c| allow_const || !c.is_const);
+        let p_distinct = if self.win_chain == 1 { 1 } else if self.cfg.bias == Bias::Window { 3 } else { 10 };
         if self.helpers_ok()
-            && refs.len() == frame.cols.len()
-            && frame.cols.len() <= 5
+            && all_refs.len() == frame.cols.len()
+            && frame.cols.len() <= 6
             && frame.cols.iter().all(|c| c.name.is_some())
             // after a take the DISTINCT is merged into the SELECT of the LIMIT (finding
             // C01-take-then-distinct-merged)
             && (!self.had_take || self.haz("take_distinct"))
-            && self.t.chance(1, 10)
+            && self.t.chance(1, p_distinct)
         {
             if self.had_take {
                 self.touch("take_distinct");
             }
-            let keys: Vec<ColRef> = refs.iter().map(|(i, text)| ColRef { idx: *i, text: text.clone() }).collect();
+            let keys: Vec<ColRef> = all_refs.iter().map(|(i, text)| ColRef { idx: *i, text: text.clone() }).collect();
             if self.wild_prog { self.touch("wild_helpers"); }
             for c in frame.cols.iter_mut() {
                 c.unique = false;
@@ -2122,6 +2129,16 @@ impl<'t, 'd> Gen<'t, 'd> {
                     }
                 }
             }
+            if self.win_chain > 0 && known {
+                let keep = if self.win_chain == 2 { 2 } else { 7 };
+                if w[keep] > 0 {
+                    for (i, x) in w.iter_mut().enumerate() {
+                        if i != keep {
+                            *x = 0;
+                        }
+                    }
+                }
+            }
             let choice = self.t.weighted(&w);
             if !matches!(choice, 0 | 1 | 2) {
                 self.simple_so_far = false;
@@ -2138,8 +2155,13 @@ impl<'t, 'd> Gen<'t, 'd> {
             let st = match choice {
                 0 => Some(self.gen_select(frame)),
                 1 => {
-                    let window_ok = self.t.chance(1, 4);
-                    Some(self.gen_derive(frame, &ord.clone(), WFrame::Default, window_ok))
+                    let window_ok = self.t.chance(1, if self.cfg.bias == Bias::Window { 2 } else { 4 });
+                    let d = self.gen_derive(frame, &ord.clone(), WFrame::Default, window_ok);
+                    let windowed = matches!(&d, Step::Derive(items) if items.iter().any(|i| i.expr.has_window()));
+                    if windowed && self.cfg.bias == Bias::Window && self.win_chain == 0 && self.t.chance(1, 3) {
+                        self.win_chain = 3;
+                    }
+                    Some(d)
                 }
                 2 => {
                     if self.cfg.bias == Bias::Window && self.helpers_ok() && self.t.chance(1, 3) {
@@ -2256,6 +2278,9 @@ impl<'t, 'd> Gen<'t, 'd> {
                     }
                 }
             };
+            if self.win_chain > 0 {
+                self.win_chain -= 1;
+            }
             if ord.ordered {
                 let dirtying = match &st {
                     Some(Step::Select(_)) | Some(Step::SelectExcept(_)) | Some(Step::Join { .. }) | Some(Step::Window { .. }) => true,
